@@ -115,9 +115,22 @@ impl_refs! {
     (A 0, B 1, C 2, D 3, E 4, F 5, G 6) (A 0, B 1, C 2, D 3, E 4, F 5, G 6, H 7)
 }
 
+/// Which PUBLIC entry point of the multi-borrow a request goes through.
+#[derive(Clone, Copy, PartialEq, Debug)]
+pub enum MVia {
+    /// `StateRegistry::try_get_multiple_mut::<Tup>()` / (panicking) `StateRegistry::get_multiple_mut::<Tup>()`
+    Reg,
+    /// the public trait method `<Tup as MultiStateTuple>::try_get_mut(&mut registry)` called directly
+    Tuple,
+}
+
 /// What to do with a tuple: the increment written through every reference, and which accessor to use.
 #[derive(Clone, Copy)]
-pub struct MArg { pub d: u64, pub panicking: bool }
+pub struct MArg { pub d: u64, pub panicking: bool, pub via: MVia }
+
+/// What the request is issued on: a `&mut StateRegistry` (the current one or one reached by `parent_mut()`), or
+/// the `&mut State` wrapper (method syntax / deref coercion on `State`, which is how components call it).
+pub enum MTarget<'b> { Reg(&'b mut Rg), State(&'b mut St) }
 
 fn refs_out<R: RefsApply>(refs: R, d: u64) -> String {
     let (vals, ptrs) = refs.apply(d);
@@ -125,20 +138,26 @@ fn refs_out<R: RefsApply>(refs: R, d: u64) -> String {
     if p.len() != ptrs.len() { "alias".into() } else { tagged("vals", vals.iter().map(|v| v.to_string())) }
 }
 
-/// `try_get_multiple_mut::<Tup>()` (or the panicking `get_multiple_mut::<Tup>()`), then `+= d` through every
-/// returned reference; `alias` if two of the returned references point to the same object.
-pub fn multi_finish<'b, Tup>(r: &'b mut Rg, a: MArg) -> String
+fn refs_res<R: RefsApply>(r: Result<R, StateError>, d: u64) -> String {
+    match r { Ok(refs) => refs_out(refs, d), Err(e) => err_s(&e) }
+}
+fn refs_opt<R: RefsApply>(r: Option<R>, d: u64) -> String {
+    match r { Some(refs) => refs_out(refs, d), None => "panic".into() }
+}
+
+/// One multi-borrow request for the tuple type `Tup` through the entry point `a.via` (`a.panicking`: the panicking
+/// registry accessor), then `+= d` through every returned reference; `alias` if two of the returned references
+/// point to the same object.
+pub fn multi_finish<'b, Tup>(t: MTarget<'b>, a: MArg) -> String
 where Tup: MultiStateTuple<'b, 'static>, Tup::References: RefsApply {
-    if a.panicking {
-        match catch(move || r.get_multiple_mut::<Tup>()) {
-            Some(refs) => refs_out(refs, a.d),
-            None => "panic".into(),
-        }
-    } else {
-        match r.try_get_multiple_mut::<Tup>() {
-            Ok(refs) => refs_out(refs, a.d),
-            Err(e) => err_s(&e),
-        }
+    match (t, a.via) {
+        (MTarget::Reg(r), MVia::Reg) if a.panicking => refs_opt(catch(move || r.get_multiple_mut::<Tup>()), a.d),
+        (MTarget::Reg(r), MVia::Reg) => refs_res(r.try_get_multiple_mut::<Tup>(), a.d),
+        (MTarget::Reg(r), MVia::Tuple) => refs_res(<Tup as MultiStateTuple<'b, 'static>>::try_get_mut(r), a.d),
+        // on `State`: method syntax (auto-deref) resp. deref coercion of the argument
+        (MTarget::State(s), MVia::Reg) if a.panicking => refs_opt(catch(move || s.get_multiple_mut::<Tup>()), a.d),
+        (MTarget::State(s), MVia::Reg) => refs_res(s.try_get_multiple_mut::<Tup>(), a.d),
+        (MTarget::State(s), MVia::Tuple) => refs_res(<Tup as MultiStateTuple<'b, 'static>>::try_get_mut(s), a.d),
     }
 }
 
@@ -172,15 +191,15 @@ macro_rules! multi_fixed { ($keys:ident, $r:ident, $d:ident; $(($($t:ident $n:tt
     $( if $keys == [$($n),+] { return Some(multi_finish::<($($t),+)>($r, $d)); } )*
 }}
 
-fn multi_u2(keys: &[u64], r: &mut Rg, d: MArg) -> Option<String> {
+fn multi_u2<'b>(keys: &[u64], r: MTarget<'b>, d: MArg) -> Option<String> {
     multi_tree!(keys, r, d, 0, (K0 0, K1 1), [], [x x x x x x x x])
 }
-fn multi_u4(keys: &[u64], r: &mut Rg, d: MArg) -> Option<String> {
+fn multi_u4<'b>(keys: &[u64], r: MTarget<'b>, d: MArg) -> Option<String> {
     multi_tree!(keys, r, d, 0, (K0 0, K1 1, K2 2, K3 3), [], [x x x x])
 }
 /// Tuples over all eight types (arity 5..8): a fixed set — all-distinct permutations and ones with a
 /// repetition at different positions.
-fn multi_u8(keys: &[u64], r: &mut Rg, d: MArg) -> Option<String> {
+fn multi_u8<'b>(keys: &[u64], r: MTarget<'b>, d: MArg) -> Option<String> {
     multi_fixed!(keys, r, d;
         (K0 0, K1 1, K2 2, K3 3, K4 4) (K4 4, K3 3, K2 2, K1 1, K0 0) (K7 7, K2 2, K5 5, K0 0, K3 3)
         (K0 0, K1 1, K2 2, K3 3, K0 0) (K5 5, K5 5, K6 6, K7 7, K4 4) (K1 1, K6 6, K3 3, K6 6, K2 2)
@@ -209,11 +228,33 @@ pub fn multi_supported(keys: &[u64]) -> bool {
     (2..=8).contains(&n) && (keys.iter().all(|&k| k < 2) || (n <= 4 && keys.iter().all(|&k| k < 4)) || U8_TUPLES.contains(&keys))
 }
 
-pub fn multi(keys: &[u64], r: &mut Rg, d: MArg) -> String {
+pub fn multi(keys: &[u64], r: &mut Rg, d: MArg) -> String { multi_on(keys, MTarget::Reg(r), d) }
+
+/// The request `d` for the key tuple `keys`, issued on `r`.
+pub fn multi_on<'b>(keys: &[u64], r: MTarget<'b>, d: MArg) -> String {
     let o = if keys.iter().all(|&k| k < 2) { multi_u2(keys, r, d) }
         else if keys.len() <= 4 && keys.iter().all(|&k| k < 4) { multi_u4(keys, r, d) }
         else { multi_u8(keys, r, d) };
     o.unwrap_or_else(|| panic!("no instantiation for tuple {keys:?}"))
+}
+
+/// `(multiv VIA DIST (K*) D)`: a multi-borrow through one of the public entry points — `reg` / `regp`
+/// (`StateRegistry::try_get_multiple_mut` / `get_multiple_mut`), `tup` (`MultiStateTuple::try_get_mut`), and the same
+/// three on the `State` wrapper (`st`, `stp`, `sttup`) — issued on the registry reached by `parent_mut()` applied
+/// `DIST` times (`State` exists only for the current registry: the `st*` routes with `DIST > 0` use the registry).
+pub fn multi_via(state: &mut St, a: &[Sx]) -> String {
+    let (via, panicking, wrapped) = match a[0].atom().expect("via") {
+        "reg" => (MVia::Reg, false, false), "regp" => (MVia::Reg, true, false), "tup" => (MVia::Tuple, false, false),
+        "st" => (MVia::Reg, false, true), "stp" => (MVia::Reg, true, true), "sttup" => (MVia::Tuple, false, true),
+        other => panic!("unknown entry point {other}"),
+    };
+    let dist = n(a, 1);
+    let keys: Vec<u64> = a[2].items().unwrap().iter().map(|x| x.nat().unwrap()).collect();
+    let arg = MArg { d: n(a, 3), panicking, via };
+    if wrapped && dist == 0 { return multi_on(&keys, MTarget::State(state), arg); }
+    let mut r: &mut Rg = &mut **state;
+    for _ in 0..dist { match r.parent_mut() { Some(p) => r = p, None => return "noparent".into() } }
+    multi_on(&keys, MTarget::Reg(r), arg)
 }
 
 // ---------------------------------------------------------------- one registry operation
@@ -278,9 +319,10 @@ pub fn exec_rop(state: &mut St, op: &Sx) -> String {
         "pop" => return pop(state),
         "multi" | "multip" => {
             let keys: Vec<u64> = a[0].items().unwrap().iter().map(|x| x.nat().unwrap()).collect();
-            let arg = MArg { d: n(a, 1), panicking: name == "multip" };
+            let arg = MArg { d: n(a, 1), panicking: name == "multip", via: MVia::Reg };
             return multi(&keys, &mut **state, arg);
         }
+        "multiv" => return multi_via(state, a),
         "parins" => {
             let (d, k, v) = (n(a, 0), n(a, 1), n(a, 2));
             let mut r: &mut Rg = &mut **state;
